@@ -1,11 +1,21 @@
 package main
 
-import "github.com/openacid/slim/trie"
+import (
+	"math/rand"
+
+	"github.com/openacid/slim/trie"
+)
 
 // replayOther handles the events of the families other than lookup; extended as
 // families are added.
 func replayOther(t *Tracer, rs *replayState, name string, e map[string]interface{}, c **TrieCase, st **trie.SlimTrie) bool {
 	gi := func(k string) int { return int(e[k].(float64)) }
+	if rs.hist == nil {
+		rs.hist = &histReplay{pool: map[int]*poolStream{}, r: rand.New(rand.NewSource(7))}
+	}
+	if rs.hist.handle(t, name, e) {
+		return true
+	}
 	switch name {
 	case "scan":
 		if *st != nil {
